@@ -669,7 +669,7 @@ func rootFiles(files map[string]*srcFile, first ...string) []*srcFile {
 // runAll runs every translator in sequence; the exit code is the maximum.
 func runAll(args []string) int {
 	exit := 0
-	for _, name := range []string{"grammar", "tables", "effects", "options", "failnames"} {
+	for _, name := range []string{"grammar", "tables", "effects", "options", "failnames", "golite"} {
 		for _, c := range subcommands {
 			if c.name == name {
 				if rc := c.run(args); rc > exit {
